@@ -187,11 +187,17 @@ func checkMerge(e *Env, m *e1Model) {
 			case *ssa.Call:
 				app := isAppend(x)
 				if app == nil {
+					// a helper that records a problem on every path (`found.addf(...)`)
+					if x.Call.StaticCallee() != nil && recordsProblem(x, 0) {
+						term[b]++
+						probTerm[b]++
+						kinds["problem"]++
+					}
 					continue
 				}
 				st, _ := app.Type().Underlying().(*types.Slice)
 				switch {
-				case st != nil && types.Identical(st.Elem(), types.Typ[types.String]):
+				case st != nil && isProblemElem(st.Elem()):
 					term[b]++
 					probTerm[b]++
 					kinds["problem"]++
